@@ -665,8 +665,8 @@ func c10(c *core.Ctx) {
 		}
 		c.Floor("updateTop/re-rank-branches", nre, 2)
 
-		// start-up
-		ncd := c.Fn("store.NewChainDataBase")
+		// start-up (the code may live in a private helper NewChainDataBase calls on the way to every return)
+		ncd := homeOf(c, c.Fn("store.NewChainDataBase"), rank)
 		getC := c.Method("store.CandidateCache", "GetCandidates")
 		nr := 0
 		for _, ci := range core.CallsIn(ncd, rank) {
@@ -1068,7 +1068,7 @@ func c10(c *core.Ctx) {
 	// ------------------------------------------------------------------------------------------------------------------
 	c.Clause("C10.6b", "a restarted node ranks what a running node ranks: the candidates NewChainDataBase hands to Top.Rank are only those whose stored profile says isCandidate == true")
 	c.Run("restart-filter", func() {
-		ncd := c.Fn("store.NewChainDataBase")
+		ncd := homeOf(c, c.Fn("store.NewChainDataBase"), c.Method("store.VoteTop", "Rank"))
 		rank := core.CallsIn(ncd, c.Method("store.VoteTop", "Rank"))
 		c.Floor("NewChainDataBase/Rank-calls", len(rank), 1)
 		isCandKey := constant.StringVal(c.Const("chain/types.CandidateKeyIsCandidate").Val())
@@ -1141,7 +1141,7 @@ func c10(c *core.Ctx) {
 
 	c.Clause("C10.6", "restart repopulates what has no disk fallback: NewChainDataBase inserts every reloaded candidate it ranks into LastConfirm.CandidateTrieDB (the all-candidates index, whose only reader GetAll never falls back to disk) before returning")
 	c.Run("restart", func() {
-		ncd := c.Fn("store.NewChainDataBase")
+		ncd := homeOf(c, c.Fn("store.NewChainDataBase"), c.Method("store.VoteTop", "Rank"))
 		getC := c.Method("store.CandidateCache", "GetCandidates")
 		set := c.Method("store.CandidateTrieDB", "Set")
 		put := c.Method("store.CandidateTrieDB", "Put")
